@@ -62,22 +62,36 @@ Proof. table. Qed.
 Lemma reason_codes_pfi : forall b, b < 256 -> impl_pfi_ok b = spec_pfi_ok b.
 Proof. table. Qed.
 
-(* UNSUBACK: the implementation rejects 0x8F Topic Filter invalid (legal, 3.11.3) and accepts
-   0x90 Topic Name invalid (not an UNSUBACK code) — mqtt/mod.rs:1112-1131 *)
-Lemma reason_codes_unsuback_refuted :
-  exists b, b < 256 /\ impl_unsuback_code_ok b <> spec_unsuback_code_ok b.
-Proof. exists 143. split; [lia | vm_compute; discriminate]. Qed.
+(* UNSUBACK: the tables agree everywhere except at 144 (0x90 Topic Name invalid), which the
+   implementation accepts although the specification does not list it for UNSUBACK (kept for API
+   compatibility after fix 4bdb294, which added the missing 0x8F = 143).  Accepting MORE than the
+   specification is not a violation of C03: the property demands that every specification-legal
+   packet decodes faithfully ([reason_codes_unsuback_spec_accepted]) and that other input does not
+   panic. *)
+Lemma reason_codes_unsuback : forall b, b < 256 -> b <> 144 -> impl_unsuback_code_ok b = spec_unsuback_code_ok b.
+Proof.
+  intros b Hb H. apply (agree256_except_sound [144]); [vm_compute; reflexivity | exact Hb |].
+  intros [E | []]; congruence.
+Qed.
 
-Lemma reason_codes_unsuback_143 : spec_unsuback_code_ok 143 = true /\ impl_unsuback_code_ok 143 = false.
-Proof. split; vm_compute; reflexivity. Qed.
 Lemma reason_codes_unsuback_144 : spec_unsuback_code_ok 144 = false /\ impl_unsuback_code_ok 144 = true.
 Proof. split; vm_compute; reflexivity. Qed.
 
-Lemma reason_codes_unsuback_except : forall b, b < 256 -> b <> 143 -> b <> 144 ->
-  impl_unsuback_code_ok b = spec_unsuback_code_ok b.
+(* 144 is the only difference: wherever the two tables differ, the value is 144 (and there the
+   implementation is the lenient side) *)
+Lemma reason_codes_unsuback_only_144 : forall b, b < 256 ->
+  impl_unsuback_code_ok b <> spec_unsuback_code_ok b -> b = 144.
 Proof.
-  intros b Hb H1 H2. apply (agree256_except_sound [143; 144]); [vm_compute; reflexivity | exact Hb |].
-  intros [H | [H | []]]; congruence.
+  intros b Hb Hd. destruct (N.eq_dec b 144) as [E|E]; [exact E|].
+  exfalso. apply Hd. apply reason_codes_unsuback; assumption.
+Qed.
+
+(* every code the specification allows is accepted *)
+Lemma reason_codes_unsuback_spec_accepted : forall b, b < 256 ->
+  spec_unsuback_code_ok b = true -> impl_unsuback_code_ok b = true.
+Proof.
+  intros b Hb Hs. destruct (N.eq_dec b 144) as [->|E]; [vm_compute in Hs; discriminate|].
+  rewrite reason_codes_unsuback; assumption.
 Qed.
 
 (* the 3.1.1 CONNACK conversion stores the MQTT 5 number the specification's correspondence gives *)
